@@ -233,7 +233,7 @@ def run(ctx):
     quick = ctx.quick
     mviol = design(ctx)
     wit = witnesses()
-    plan = [(CFG_A, dict(g1_depth=6 if quick else 8, g1_noop_depth=4 if quick else 5, sim_num=250 if quick else 1500,
+    plan = [(CFG_A, dict(g1_depth=6 if quick else 8, g1_noop_depth=4, sim_num=250 if quick else 1500,
                          sim_depth=30, sim_keep=1500 if quick else 20000)),
             (CFG_B, dict(g1_depth=0 if quick else 7, g1_noop_depth=0, sim_num=100 if quick else 1000, sim_depth=26,
                          sim_keep=1000 if quick else 15000))]
@@ -461,7 +461,8 @@ def loop_stage(ctx):
     # design level: chains with runs of empty blocks around the window size, one and two peers
     runs = [(1100, '"p1"', 4, 2), (1001, '"p1", "p2"', 4, 2)]
     if not quick:
-        runs = [(code, ps, 4, 2) for code in (0, 1, 10, 11, 100, 101, 110, 111, 1000, 1001, 1010, 1011, 1100, 1101, 1110, 1111) for ps in ('"p1"', '"p1", "p2"')]
+        runs = [(code, ps, 4, 2) for code in (0, 1, 10, 11, 100, 101, 110, 111, 1000, 1001, 1010, 1011, 1100, 1101, 1110, 1111) for ps in ('"p1", "p2"',)]
+        runs += [(code, '"p1"', 4, 2) for code in (0, 1000, 1100, 1110)]
         runs += [(10001, '"p1", "p2"', 5, 3), (11000, '"p1"', 5, 3), (10010, '"p1", "p2"', 5, 2)]
     for code, ps, n, w in runs:
         c = dict(name="L", N=n, body=code, W=w, maxp=2, peers=2, maxc=2)
